@@ -505,6 +505,73 @@ fn run_roundtrip(q: &QAst, rep: &mut CaseReport) -> Verdict {
     }
 }
 
+// ------------------------------------------------------------------ STORE round trip
+
+/// a STORE command: type, context (bare word or quoted), JSON payload whose strings and keys carry the characters the payload
+/// extraction has to skip correctly (escaped quotes, backslashes, braces, brackets, commas, colons, non-ASCII)
+#[derive(Clone, Debug, Serialize, Deserialize)]
+pub struct StoreCmd {
+    pub ty: String,
+    pub ctx: String,
+    pub quoted_ctx: bool,
+    pub payload: Value,
+}
+
+fn tricky_text() -> BoxedStrategy<String> {
+    prop_oneof![
+        3 => "[a-z0-9 ]{0,8}".prop_map(|s| s),
+        4 => prop::collection::vec(prop::sample::select(vec!["\"", "\\", "{", "}", "[", "]", ",", ":", " ", "a", "z", "é", "東", "\n", "\t", "'", "PAYLOAD", "}\"", "\"{"]), 0..8).prop_map(|v| v.concat()),
+    ]
+    .boxed()
+}
+
+fn json_leaf() -> BoxedStrategy<Value> {
+    prop_oneof![
+        4 => tricky_text().prop_map(Value::String),
+        2 => (-1000i64..1000).prop_map(|i| json!(i)),
+        1 => prop::sample::select(vec![0.5f64, -2.25, 1e3, 1234.5]).prop_map(|f| json!(f)),
+        1 => any::<bool>().prop_map(Value::Bool),
+        1 => Just(Value::Null),
+    ]
+    .boxed()
+}
+
+fn store_cmd() -> BoxedStrategy<StoreCmd> {
+    let value = json_leaf().prop_recursive(2, 8, 3, |inner| {
+        prop_oneof![
+            prop::collection::vec(inner.clone(), 0..3).prop_map(Value::Array),
+            prop::collection::btree_map(tricky_text(), inner, 0..3).prop_map(|m| Value::Object(m.into_iter().collect())),
+        ]
+    });
+    (ident(), prop_oneof![2 => ident().prop_map(|s| (s, false)), 1 => "[a-z0-9:._-]{1,10}".prop_map(|s| (s, true))], prop::collection::btree_map(tricky_text(), value, 0..4))
+        .prop_map(|(ty, (ctx, quoted_ctx), m)| StoreCmd { ty, ctx, quoted_ctx, payload: Value::Object(m.into_iter().collect()) })
+        .boxed()
+}
+
+fn run_store_roundtrip(c: &StoreCmd, rep: &mut CaseReport) -> Verdict {
+    let ctx_txt = if c.quoted_ctx { format!("\"{}\"", c.ctx) } else { c.ctx.clone() };
+    let text = format!("STORE {} FOR {} PAYLOAD {}", c.ty, ctx_txt, serde_json::to_string(&c.payload).unwrap_or_default());
+    let expected = Command::Store { event_type: c.ty.clone(), context_id: c.ctx.clone(), payload: c.payload.clone() };
+    rep.sub_evals += 1;
+    let escapes = text.contains("\\\"") || text.contains("\\\\");
+    if escapes {
+        rep.label("store:escaped-quote-or-backslash-in-string");
+    }
+    match parse_guarded(&text) {
+        Err(p) => Verdict::fail("parse-panic", json!({"text": text, "panic": p})),
+        Ok(Err(e)) => Verdict::fail("well-formed-command-rejected", json!({"text": text, "error": e})),
+        Ok(Ok(got)) => {
+            if got != expected {
+                return Verdict::fail("tree-differs", json!({"text": text, "got": format!("{:?}", got), "expected": format!("{:?}", expected)}));
+            }
+            if escapes || text.matches('{').count() > 1 {
+                rep.nontrivial = true;
+            }
+            Verdict::Pass
+        }
+    }
+}
+
 // ------------------------------------------------------------------ totality on arbitrary / mutated input
 
 #[derive(Clone, Debug, Serialize, Deserialize)]
@@ -862,6 +929,10 @@ pub fn replay(check: &str, case: &Value) -> Verdict {
             Ok(c) => run_roundtrip(&c, &mut CaseReport::default()),
             Err(e) => Verdict::Discard(format!("bad case: {}", e)),
         },
+        "store-roundtrip" => match serde_json::from_value::<StoreCmd>(case.clone()) {
+            Ok(c) => run_store_roundtrip(&c, &mut CaseReport::default()),
+            Err(e) => Verdict::Discard(format!("bad case: {}", e)),
+        },
         "termination" => {
             let text = case["text"].as_str().unwrap_or("").to_string();
             let cd = CaseDir::new("c17r");
@@ -912,6 +983,11 @@ pub fn run(ctx: &Ctx) -> i32 {
     replay_regressions(ctx, &stats, &mut report, &replay);
     if let Some(f) = explore(ctx, "roundtrip", qast, Explore { cases: ctx.tier.pick(60_000, 400_000), max_shrink_iters: 2000, lanes: ctx.lanes }, &stats, run_roundtrip) {
         report.violations.push(f);
+    }
+    if report.violations.is_empty() {
+        if let Some(f) = explore(ctx, "store-roundtrip", store_cmd, Explore { cases: ctx.tier.pick(20_000, 200_000), max_shrink_iters: 2000, lanes: ctx.lanes }, &stats, run_store_roundtrip) {
+            report.violations.push(f);
+        }
     }
     let corp = corpus();
     stats.lock().unwrap().extra.insert("corpus_size".into(), json!(corp.len()));
